@@ -85,40 +85,36 @@ Example link_example_heap :
 Proof. vm_compute. repeat split; reflexivity. Qed.
 
 (* ================================================================== *)
-(* Outside [linkable]: two genuine discrepancies                         *)
+(* Negative min_should (formerly outside [linkable]) and the one shape  *)
+(* still outside it                                                     *)
 (* ================================================================== *)
 
-(* 1. BooleanQuery with a must clause and min_should <= -1.  int(min) is a negative, hence
-   NON-ZERO, Min(): BooleanSearcher (search_boolean.go, "shouldSearcher.Min() == 0") then treats
-   the should clause as REQUIRED, although min_should = -0.5 and 0 leave it optional.  The
-   documented reading [sem] (at least floor(min) should clauses) returns documents 1 and 2; the
-   searcher tree — and bleve, probe of 2026-09-23: must c, should {a, d}, SetMinShould(-1) on
-   x1 = {c}, x2 = {c, a} returns x2 only, SetMinShould(-0.5) returns x1 and x2 — returns 2. *)
+(* 1. BooleanQuery with a must clause and min_should <= -1.  int(min) is a negative Min().
+   BooleanSearcher used to test "shouldSearcher.Min() == 0" and so treated the should clause as
+   REQUIRED (probe of 2026-09-23: must c, should {a, d}, SetMinShould(-1) on x1 = {c},
+   x2 = {c, a} returned x2 only, SetMinShould(-0.5) returned x1 and x2), against the documented
+   reading [sem] (at least floor(min) should clauses: optional).  Fixed in /repo 895ea25
+   ("Min() <= 0"); Machines.v transcribes the fixed test, [linkable] no longer excludes the shape,
+   and the tree now denotes what [sem] says for every option setting. *)
 Definition neg_corpus : corpus := [lk_doc 1 [99]; lk_doc 2 [99; 97]].
 Definition neg_query (min2 : Z) : query := QBool [lk_term 99] [lk_term 97; lk_term 100] min2 [] None.
 
-Theorem link_negative_min_refuted :
-  exists o c q t, corpus_wf c /\ tree_of true o c q = Some t /\ wf t /\ linkable q = false /\
-    denote t <> sem true c q.
-Proof.
-  exists opts_scoring, neg_corpus, (neg_query (-2)).
-  eexists. split; [apply corpus_wfb_spec; reflexivity|]. split; [vm_compute; reflexivity|].
-  split; [cbn; repeat split; lia|]. split; [reflexivity|]. vm_compute. discriminate.
-Qed.
-
 Example link_negative_min_values :
-  (forall o, In o [opts_scoring; opts_score_none; opts_upsidedown false] ->
-     match tree_of true o neg_corpus (neg_query (-2)) with Some t => denote t = [2] | None => False end) /\
-  sem true neg_corpus (neg_query (-2)) = [1; 2] /\
-  (* min_should = -0.5 and min_should = 0 are fine *)
-  (match tree_of true opts_scoring neg_corpus (neg_query (-1)) with Some t => denote t = [1; 2] | None => False end) /\
-  sem true neg_corpus (neg_query (-1)) = [1; 2] /\ sem true neg_corpus (neg_query 0) = [1; 2].
+  (forall o min2, In o [opts_scoring; opts_score_none; opts_upsidedown false; opts_upsidedown true] ->
+     In min2 [-2; -4; -1; -2000000; 0; 1] ->
+     linkable (neg_query min2) = true /\
+     match tree_of true o neg_corpus (neg_query min2) with Some t => denote t = [1; 2] | None => False end) /\
+  (forall min2, In min2 [-2; -4; -1; -2000000; 0; 1] -> sem true neg_corpus (neg_query min2) = [1; 2]) /\
+  (* min_should = 1 requires a should match, in the tree and in sem *)
+  (match tree_of true opts_scoring neg_corpus (neg_query 2) with Some t => denote t = [2] | None => False end) /\
+  sem true neg_corpus (neg_query 2) = [2].
 Proof.
-  split; [|vm_compute; repeat split; reflexivity].
-  intros o [<-|[<-|[<-|[]]]]; vm_compute; reflexivity.
+  split; [|split; [|vm_compute; split; reflexivity]].
+  - intros o min2 [<-|[<-|[<-|[<-|[]]]]] [<-|[<-|[<-|[<-|[<-|[<-|[]]]]]]]; vm_compute; split; reflexivity.
+  - intros min2 [<-|[<-|[<-|[<-|[<-|[<-|[]]]]]]]; vm_compute; reflexivity.
 Qed.
 
-(* 2. A disjunction with ONE clause and int(min) >= 2 (DisjunctionQuery.Validate rejects it, but
+(* 2. (outside [linkable]) A disjunction with ONE clause and int(min) >= 2 (DisjunctionQuery.Validate rejects it, but
    Index.Search does not validate).  On its own it matches nothing, with every option setting.
    Inside a compound that is optimised under score "none" its slice searcher forwards Optimize to
    the child, its min is ignored, and the answer CHANGES WITH THE REQUEST OPTIONS: with scoring
